@@ -1,5 +1,209 @@
-From Coq Require Import ZArith List.
+(* Property C11 -- theorems only.  Each is closed by `exact <lemma>` and followed by Print Assumptions.
+   They talk about GrowModel.v, the executable model of momo::HashSet as a chain of table generations whose extracted
+   code is run against the real HashSet/HashMap (with refused allocations and throwing hash functions) on every run.
+   kind_ok / kind_ok2 are the facts about a bucket kind that the proofs use (index functions stay inside the table,
+   UpdateMaxProbe never under-approximates, the growth policy does not shrink / probing reaches every bucket,
+   CalcCapacity <= physical size); they are proved below for the kinds used by the extracted model. *)
+From Coq Require Import ZArith List Bool Permutation.
 From C11 Require Import GrowModel.
-Theorem C11_bucket_find_sound : forall k l p, bfind k l = Some p -> nth_error l p = Some k.
-Proof. exact GrowModel.bfind_some. Qed.
-Print Assumptions C11_bucket_find_sound.
+Import ListNotations.
+Local Open Scope Z_scope.
+
+(* relocate_interrupted_inv.  For EVERY hash function h, bucket capacity, probing scheme, growth policy satisfying kind_ok,
+   EVERY sequence of operations and EVERY failure schedule carried by them (hash throwing in pvFind, item creation failing,
+   bucket-array allocation refused, any item migration of any pvRelocateItems throwing -- also repeatedly, leaving several
+   generations linked): every state reached from the empty HashSet satisfies Inv = every element lives in exactly one
+   generation (keys pairwise distinct over the whole chain), on the probe path of its home bucket of that generation within
+   the recorded max-probe bound with WasFull set on all buckets before it, mCount exact; and with
+   areItemsNothrowRelocatable (where pvFind only looks at the newest table) the chain never has more than one table. *)
+Theorem C11_relocate_interrupted_inv :
+  forall (B : Type) (b0 : B) (decode : Z -> B -> Z) (upd_bound : B -> Z -> B) (h : Z -> Z) (cap : Z) 
+           (wf0 : bool) (start : Z -> Z -> Z) (next : Z -> Z -> Z -> Z) (logStart : Z) (calcCapacity shift : Z -> Z)
+           (nothrowReloc : bool),
+         kind_ok B decode upd_bound cap start next logStart shift ->
+         forall (os : list op) (s : hset B) (outs : list out),
+         run B b0 decode upd_bound h cap wf0 start next logStart calcCapacity shift nothrowReloc (hinit B) os = Some (s, outs) ->
+         Inv B b0 decode h cap wf0 start next nothrowReloc s.
+Proof. exact relocate_interrupted_inv. Qed.
+Print Assumptions C11_relocate_interrupted_inv.
+
+(* the same as a one-step statement: Inv is preserved by every operation under every failure choice (unless the model says std::terminate). *)
+Theorem C11_inv_step :
+  forall (B : Type) (b0 : B) (decode : Z -> B -> Z) (upd_bound : B -> Z -> B) (h : Z -> Z) (cap : Z) 
+           (wf0 : bool) (start : Z -> Z -> Z) (next : Z -> Z -> Z -> Z) (logStart : Z) (calcCapacity shift : Z -> Z)
+           (nothrowReloc : bool),
+         kind_ok B decode upd_bound cap start next logStart shift ->
+         forall (s : hset B) (o : op) (s' : hset B) (r : out),
+         Inv B b0 decode h cap wf0 start next nothrowReloc s ->
+         step B b0 decode upd_bound h cap wf0 start next logStart calcCapacity shift nothrowReloc s o = Some (s', r) ->
+         Inv B b0 decode h cap wf0 start next nothrowReloc s'.
+Proof. exact inv_step. Qed.
+Print Assumptions C11_inv_step.
+
+(* all_findable.  In every state satisfying Inv, pvFind finds exactly the stored keys: no element becomes unreachable, whatever number of generations coexist. *)
+Theorem C11_all_findable :
+  forall (B : Type) (b0 : B) (decode : Z -> B -> Z) (h : Z -> Z) (cap : Z) (wf0 : bool) (start : Z -> Z -> Z)
+           (next : Z -> Z -> Z -> Z) (nothrowReloc : bool) (s : hset B) (k : Z),
+         Inv B b0 decode h cap wf0 start next nothrowReloc s ->
+         In k (abs B s) <-> (exists loc : nat * Z * nat, hfind B b0 decode h wf0 start next nothrowReloc s k = Some loc).
+Proof. exact all_findable. Qed.
+Print Assumptions C11_all_findable.
+
+(* traversal_once.  One GetBegin()..GetEnd() traversal (pvInc/pvMove across buckets and generations) is a permutation of the contents without repetition: every element visited exactly once. *)
+Theorem C11_traversal_once :
+  forall (B : Type) (b0 : B) (decode : Z -> B -> Z) (h : Z -> Z) (cap : Z) (wf0 : bool) (start : Z -> Z -> Z)
+           (next : Z -> Z -> Z -> Z) (nothrowReloc : bool) (s : hset B),
+         Inv B b0 decode h cap wf0 start next nothrowReloc s -> Permutation (traverse B s) (abs B s) /\ NoDup (traverse B s).
+Proof. exact traversal_once. Qed.
+Print Assumptions C11_traversal_once.
+
+(* removable.  In every state satisfying Inv (e.g. an interrupted migration with 3 generations) Remove(key) of a present key succeeds, removes exactly that key, keeps Inv and the chain; afterwards the key is not found. *)
+Theorem C11_removable :
+  forall (B : Type) (b0 : B) (decode : Z -> B -> Z) (upd_bound : B -> Z -> B) (h : Z -> Z) (cap : Z) 
+           (wf0 : bool) (start : Z -> Z -> Z) (next : Z -> Z -> Z -> Z) (logStart : Z) (calcCapacity shift : Z -> Z)
+           (nothrowReloc : bool) (s : hset B) (k : Z),
+         Inv B b0 decode h cap wf0 start next nothrowReloc s ->
+         In k (abs B s) ->
+         exists s' : hset B,
+           step B b0 decode upd_bound h cap wf0 start next logStart calcCapacity shift nothrowReloc s (ORemove k) =
+           Some (s', RRemoved true) /\
+           Inv B b0 decode h cap wf0 start next nothrowReloc s' /\
+           Permutation (abs B s) (k :: abs B s') /\
+           ~ In k (abs B s') /\
+           hfind B b0 decode h wf0 start next nothrowReloc s' k = None /\ length (gens B s') = length (gens B s).
+Proof. exact removable. Qed.
+Print Assumptions C11_removable.
+
+(* all histories refine the abstract set.  Along every history with every failure schedule, each result is the one a
+   mathematical set would give: Insert says inserted iff the key was absent (or fails with the set unchanged), Find/Remove
+   answer by membership, traversal is a duplicate-free permutation of the set, GetCount is its size.  Hence every
+   inserted-and-not-removed key is found, in every intermediate state. *)
+Theorem C11_history_refines_set :
+  forall (B : Type) (b0 : B) (decode : Z -> B -> Z) (upd_bound : B -> Z -> B) (h : Z -> Z) (cap : Z) 
+           (wf0 : bool) (start : Z -> Z -> Z) (next : Z -> Z -> Z -> Z) (logStart : Z) (calcCapacity shift : Z -> Z)
+           (nothrowReloc : bool),
+         kind_ok B decode upd_bound cap start next logStart shift ->
+         forall (os : list op) (s : hset B) (outs : list out),
+         run B b0 decode upd_bound h cap wf0 start next logStart calcCapacity shift nothrowReloc (hinit B) os = Some (s, outs) ->
+         refines [] os outs (abs B s).
+Proof. exact history_refines_set. Qed.
+Print Assumptions C11_history_refines_set.
+
+(* strong guarantee in the model: an Insert that throws (table full / bad_alloc / hash exception / MOMO_CHECK), a failed Reserve, an Insert of a present key and a Remove of an absent key leave the whole state unchanged. *)
+Theorem C11_failed_op_changes_nothing :
+  forall (B : Type) (b0 : B) (decode : Z -> B -> Z) (upd_bound : B -> Z -> B) (h : Z -> Z) (cap : Z) 
+           (wf0 : bool) (start : Z -> Z -> Z) (next : Z -> Z -> Z -> Z) (logStart : Z) (calcCapacity shift : Z -> Z)
+           (nothrowReloc : bool),
+         kind_ok B decode upd_bound cap start next logStart shift ->
+         forall (s : hset B) (o : op) (s' : hset B) (r : out),
+         Inv B b0 decode h cap wf0 start next nothrowReloc s ->
+         step B b0 decode upd_bound h cap wf0 start next logStart calcCapacity shift nothrowReloc s o = Some (s', r) ->
+         r = RFull \/ r = RBadAlloc \/ r = RExn \/ r = RCheck \/ r = RAlready \/ r = RRemoved false -> s' = s.
+Proof. exact failed_op_changes_nothing. Qed.
+Print Assumptions C11_failed_op_changes_nothing.
+
+(* grow_refused_insert_succeeds_unless_path_full.  When the table has to grow (mCount >= mCapacity), the new capacity check
+   passes and the memory manager REFUSES the new bucket array: the insertion of a new key succeeds on the existing newest
+   table (capacity and number of generations not increased, Inv kept, the key is in) as soon as SOME bucket among the
+   bucketCount probes of the key's path is not full; it throws "Hash table is full" with the state unchanged exactly when
+   every one of them is full. *)
+Theorem C11_grow_refused_insert_succeeds_unless_path_full :
+  forall (B : Type) (b0 : B) (decode : Z -> B -> Z) (upd_bound : B -> Z -> B) (h : Z -> Z) (cap : Z) 
+           (wf0 : bool) (start : Z -> Z -> Z) (next : Z -> Z -> Z -> Z) (logStart : Z) (calcCapacity shift : Z -> Z)
+           (nothrowReloc : bool),
+         kind_ok B decode upd_bound cap start next logStart shift ->
+         forall (s : hset B) (t : table B) (r : list (table B)) (k : Z) (sch : list bool),
+         Inv B b0 decode h cap wf0 start next nothrowReloc s ->
+         gens B s = t :: r ->
+         ~ In k (abs B s) ->
+         (count B s <? capacity B s) = false ->
+         (calcCapacity (2 ^ newLog B logStart shift (gens B s)) <=? count B s) = false ->
+         ((exists d : nat, Z.of_nat d < bcount B t /\ isFull B cap (getb B b0 wf0 t (path start next (bcount B t) (h k) d)) = false) ->
+          exists s' : hset B,
+            step B b0 decode upd_bound h cap wf0 start next logStart calcCapacity shift nothrowReloc s
+              (OInsert k false false true sch) = Some (s', RInserted) /\
+            Inv B b0 decode h cap wf0 start next nothrowReloc s' /\
+            Permutation (abs B s') (k :: abs B s) /\ capacity B s' = capacity B s /\ (length (gens B s') <= length (gens B s))%nat) /\
+         ((forall d : nat, Z.of_nat d < bcount B t -> isFull B cap (getb B b0 wf0 t (path start next (bcount B t) (h k) d)) = true) ->
+          step B b0 decode upd_bound h cap wf0 start next logStart calcCapacity shift nothrowReloc s
+            (OInsert k false false true sch) = Some (s, RFull)).
+Proof. exact grow_refused_insert_succeeds_unless_path_full. Qed.
+Print Assumptions C11_grow_refused_insert_succeeds_unless_path_full.
+
+(* later_ops_complete_migration.  From any state satisfying Inv whose capacity does not exceed the physical size of the
+   newest table, failure-free insertions of fresh keys never terminate the process and never fail except through
+   MOMO_CHECK(newCapacity > mCount); if they all succeed then after more than max(0, mCapacity - mCount) of them (at the
+   latest at the next growth) the chain is back to ONE generation, and it stays single.  Needs kind_ok2: the probe sequence
+   reaches every bucket (C13) and CalcCapacity never exceeds the physical size. *)
+Theorem C11_later_ops_complete_migration :
+  forall (B : Type) (b0 : B) (decode : Z -> B -> Z) (upd_bound : B -> Z -> B) (h : Z -> Z) (cap : Z) 
+           (wf0 : bool) (start : Z -> Z -> Z) (next : Z -> Z -> Z -> Z) (logStart : Z) (calcCapacity shift : Z -> Z)
+           (nothrowReloc : bool),
+         kind_ok B decode upd_bound cap start next logStart shift ->
+         kind_ok2 cap start next calcCapacity ->
+         forall (ks : list Z) (s : hset B),
+         Inv B b0 decode h cap wf0 start next nothrowReloc s ->
+         CapOk B cap s ->
+         NoDup ks ->
+         (forall k : Z, In k ks -> ~ In k (abs B s)) ->
+         exists (s' : hset B) (outs : list out),
+           run B b0 decode upd_bound h cap wf0 start next logStart calcCapacity shift nothrowReloc s (map fresh_insert ks) =
+           Some (s', outs) /\
+           Forall (fun o : out => o = RInserted \/ o = RCheck) outs /\
+           (Forall (fun o : out => o = RInserted) outs ->
+            Z.max 0 (capacity B s - count B s) < Z.of_nat (length ks) \/ length (gens B s) = 1%nat -> length (gens B s') = 1%nat).
+Proof. exact later_ops_complete_migration_thm. Qed.
+Print Assumptions C11_later_ops_complete_migration.
+
+(* the hypotheses kind_ok hold for the concrete kinds used by the extracted model (mask start index, linear and triangular probing, exact max-probe bound, both growth policies). *)
+Theorem C11_concrete_kind_ok :
+  forall c : config,
+         0 < c_cap c ->
+         0 <= c_logStart c -> kind_ok Z (fun _ b : Z => b) Z.max (c_cap c) start_mask (cfg_next c) (c_logStart c) (cfg_sh c).
+Proof. exact concrete_kind_ok. Qed.
+Print Assumptions C11_concrete_kind_ok.
+
+(* kind_ok2 holds for linear probing (LimP4 / One) with both capacity policies (for triangular probing the coverage part is theorem C13_open2n2_probe_sequence_complete). *)
+Theorem C11_linear_kind_ok2 :
+  forall c : config, 0 < c_cap c -> c_probe c = 0 -> kind_ok2 (c_cap c) start_mask (cfg_next c) (cfg_cc c).
+Proof. exact linear_kind_ok2. Qed.
+Print Assumptions C11_linear_kind_ok2.
+
+(* the two main theorems instantiated at cfg_run = exactly the extracted function that is compared with the real momo containers on every run. *)
+Theorem C11_cfg_all_histories :
+  forall (c : config) (os : list op) (s : hset Z) (outs : list out),
+         0 < c_cap c ->
+         0 <= c_logStart c ->
+         cfg_run c (hinit Z) os = Some (s, outs) ->
+         Inv Z 0 (fun _ b : Z => b) (spread (c_dist c)) (c_cap c) (c_wf0 c) start_mask (cfg_next c) (c_nothrow c) s /\
+         refines [] os outs (abs Z s).
+Proof. exact cfg_all_histories. Qed.
+Print Assumptions C11_cfg_all_histories.
+
+(* non-vacuity: a concrete history (Open2N2<3>, refused growth + interrupted migrations) reaches THREE coexisting generations holding 4, 6 and 4 items; all 14 keys are found. *)
+Theorem C11_ex_three_generations :
+  ex_summary (cfg_run ex_cfg (hinit Z) ex_ops) =
+         Some
+           (3%nat, 14, 22, [true; true; true; true; true; true; false; true; true; true; true; true; true; true; true], [4; 6; 4]).
+Proof. exact ex_three_generations. Qed.
+Print Assumptions C11_ex_three_generations.
+
+(* non-vacuity: one more failure-free insertion brings that chain back to a single generation with all items; Remove works. *)
+Theorem C11_ex_migration_completes :
+  ex_summary (cfg_run ex_cfg (hinit Z) (ex_ops ++ [ins 16; ORemove 3])) =
+         Some (1%nat, 14, 22, [true; true; false; true; true; true; false; true; true; true; true; true; true; true; true], [14]).
+Proof. exact ex_migration_completes. Qed.
+Print Assumptions C11_ex_migration_completes.
+
+(* non-vacuity: with every growth refused a 2-bucket Open2N2<3> table accepts insertions up to 6 items through the fallback path, then reports full. *)
+Theorem C11_ex_refused_until_full :
+  match
+           cfg_run ex_cfg (hinit Z)
+             ([ins 1; ins 2; ins 3; ins 4; ins 5] ++ map (fun k : Z => OInsert k false false true []) [6; 7; 8])
+         with
+         | Some (s, outs) => (outs, count Z s, capacity Z s, length (gens Z s))
+         | None => ([], 0, 0, 0%nat)
+         end = ([RInserted; RInserted; RInserted; RInserted; RInserted; RInserted; RFull; RFull], 6, 5, 1%nat).
+Proof. exact ex_refused_until_full. Qed.
+Print Assumptions C11_ex_refused_until_full.
+
